@@ -384,3 +384,180 @@ def storage_cases(r: random.Random, n: int) -> Cases:
         for strict in (False, True):
             cs.add("storage.parse", [tx, wopt(fm), "1" if strict else "0"], parse_outcome(c, cls, tx, fm, strict))
     return cs
+
+
+# ------------------------------------------------------------------------------------------------ constants and groups
+
+from fmtutil import dict2const, make_const, make_group  # noqa: E402
+
+CONST_TEXTS = ["dev", "development", "sit", "prod", "data engineer", "DE", "v1", "2023", "a-b", "x_y", "normal", "special", "7"]
+ALL_DIRECTIVE_SPELLINGS = [f"%{p}{c}" for p in ("", "-", "+", "!", "*") for c in "abcdefghijklmnopqrstuvwxyzABCDEFGHIJKLMNOPQRSTUVWXYZ"]
+
+
+def wmap(m: dict) -> str:
+    return ",".join(f"{esc(k)}={esc(v)}" for k, v in m.items())
+
+
+def rand_mapping(r: random.Random) -> dict:
+    ks = r.sample(ALL_DIRECTIVE_SPELLINGS, r.randint(1, 4))
+    return {k: r.choice(CONST_TEXTS) for k in ks}
+
+
+def const_cases(r: random.Random, n: int) -> Cases:
+    import fmtutil.utils as U
+    cs = Cases("const")
+    for f in ALL_DIRECTIVE_SPELLINGS + ["G", "%ab", "%", "%%", "%-", "%1", "%_a"]:
+        cs.add("convert_fmt_str", [f], lambda f=f: esc(U.convert_fmt_str(f)))
+    for _ in range(n):
+        m = rand_mapping(r)
+        name = r.choice(["EnvConst", "NameConst", "X"])
+        base = r.choice([None, None, "%n", "".join(m.keys())])
+        C = dict2const(dict(m), name, base_fmt=base)
+        toks = [r.choice(list(m.keys()) + ["%Q"] * (r.random() < 0.1)) for _ in range(r.randint(1, 3))]
+        sep = r.choice(list("_-/ :") + ["__", "."])
+        fmt = sep.join(toks)
+        good = sep.join(m.get(k, "?") for k in toks)
+        for tx in (good, mutate(r, good, "abdev_- 1\n"), r.choice(CONST_TEXTS)):
+            strict = r.random() < 0.5
+            cs.add("const.parse", [wmap(m), name, wopt(base), tx, wopt(fmt), "1" if strict else "0"],
+                   lambda C=C, tx=tx, fmt=fmt, strict=strict: "ok:" + esc(C.parse(tx, fmt, strict=strict).string))
+        fmt2 = sep.join(r.choice(list(m.keys())) for _ in range(2))
+        cs.add("const.parse_format", [wmap(m), name, wopt(base), good, wopt(fmt), fmt2], lambda C=C, good=good, fmt=fmt, fmt2=fmt2: "ok:" + esc(C.parse(good, fmt).format(fmt2)))
+        cs.add("const.gen_format", [wmap(m), name, wopt(base), fmt], lambda C=C, fmt=fmt: "ok:" + esc(C.gen_format(fmt)))
+        cs.add("const.parse", [wmap(m), name, wopt(base), good, "~", "0"], lambda C=C, good=good: "ok:" + esc(C.parse(good).string))
+    return cs
+
+
+KINDS = {"serial": Serial, "datetime": Datetime, "version": Version, "naming": Naming, "storage": Storage}
+MEMBER_NAMES = ["date", "datetime", "name", "naming", "serial", "ver", "size", "a", "ab", "a_b", "d1", "x", "name2", "nm", "date_time"]
+MEMBER_FMTS = {
+    "serial": ["%n", "%p", "%c", "%b", ""],
+    "datetime": ["%Y%m%d", "%Y-%m-%d", "%H%M%S", "%Y", "%d/%m/%Y", "%n", ""],
+    "version": ["%m.%n.%c", "%m_%n_%c", "v%m", ""],
+    "naming": ["%s", "%k", "%c", "%a", "%n", ""],
+    "storage": ["%B", "%K", "%b", ""],
+}
+
+
+def rand_member_value(r: random.Random, kind: str):
+    if kind == "serial":
+        return r.choice(SERIAL_VALUES[:12])
+    if kind == "datetime":
+        return rand_dt(r).replace(microsecond=0)
+    if kind == "version":
+        from fmtutil import VerPackage
+        return VerPackage.parse(f"{r.randint(0, 20)}.{r.randint(0, 9)}.{r.randint(0, 30)}")
+    if kind == "naming":
+        return rand_name(r)
+    return rand_bits(r)
+
+
+def group_decl(r: random.Random, k: int | None = None):
+    k = k or r.randint(1, 4)
+    names = r.sample(MEMBER_NAMES, k)
+    kinds = [r.choice(list(KINDS)) for _ in names]
+    return list(zip(names, kinds))
+
+
+def wdecl(decl) -> str:
+    return "|".join(f"{esc(n)}:{k}" for n, k in decl)
+
+
+def group_fmt(r: random.Random, decl, repeats=True):
+    """(format string, list of (name, kind, member-format))"""
+    items = [(n, k) for n, k in decl if r.random() < 0.9] or [decl[0]]
+    if repeats and r.random() < 0.3:
+        items.append(r.choice(items))
+    r.shuffle(items)
+    parts, used = [], []
+    for i, (n, k) in enumerate(items):
+        mf = r.choice(MEMBER_FMTS[k])
+        parts.append("{" + n + (":" + mf if mf else "") + "}")
+        used.append((n, k, mf))
+        if i < len(items) - 1:
+            parts.append(r.choice(["_", "-", "/", " ", "__", ".", "_x_"]))
+    return "".join(parts), used
+
+
+def gshow(G, g) -> str:
+    return ";".join(f"{esc(n)}={esc(g.groups[n].string)}" for n in G.base_groups)
+
+
+def group_cases(r: random.Random, n: int) -> Cases:
+    cs = Cases("group")
+    for _ in range(n):
+        decl = group_decl(r)
+        G = make_group({nm: KINDS[k] for nm, k in decl})
+        fmt, used = group_fmt(r, decl)
+        cs.add("group.gen_format", [wdecl(decl), fmt],
+               lambda G=G, fmt=fmt: (lambda p: "ok:" + esc(p[0]) + "|" + ",".join(f"{esc(k)}={esc(v['fmt'])}" for k, v in p[1].items()))(G.gen_format(fmt)))
+        vals = {nm: rand_member_value(r, k) for nm, k in decl}
+        try:
+            g0 = G.from_value(vals)
+            text = g0.format(fmt)
+        except Exception:  # noqa: BLE001
+            continue
+        for tx in (text, mutate(r, text, "0123456789_-ab \n")):
+            cs.add("group.parse", [wdecl(decl), tx, fmt], lambda G=G, tx=tx, fmt=fmt: "ok:" + gshow(G, G.parse(tx, fmt)))
+        fmt2, _ = group_fmt(r, decl, repeats=False)
+        cs.add("group.parse_format", [wdecl(decl), text, fmt, fmt2], lambda G=G, text=text, fmt=fmt, fmt2=fmt2: "ok:" + esc(G.parse(text, fmt).format(fmt2)))
+        vals2 = {nm: (rand_member_value(r, k) if r.random() < 0.6 else vals[nm]) for nm, k in decl}
+        try:
+            text2 = G.from_value(vals2).format(fmt)
+        except Exception:  # noqa: BLE001
+            continue
+        def cmp3(G=G, text=text, text2=text2, fmt=fmt):
+            a, b = G.parse(text, fmt), G.parse(text2, fmt)
+            return "ok:" + ",".join("True" if x else "False" for x in (a < b, a == b, a > b))
+        cs.add("group.cmp", [wdecl(decl), text, fmt, text2, fmt], cmp3)
+    return cs
+
+
+# ------------------------------------------------------------------------------------------------ asset-defined formatters
+
+def assets_cases(r: random.Random, n: int) -> Cases:
+    from fmtutil.__assets import Datetime as AD, Serial as AS
+    cs = Cases("assets")
+    cs.add("aserial.regex", [], lambda: "ok:" + ",".join(esc(k) + "=" + esc(v) for k, v in AS.regex().items()))
+    cs.add("adatetime.regex", [], lambda: "ok:" + ",".join(esc(k) + "=" + esc(v) for k, v in AD.regex().items()))
+    sd = list(AS.asset.keys())
+    dd = list(AD.asset.keys())
+    for _ in range(n):
+        v = r.choice(SERIAL_VALUES + [r.randrange(0, 10 ** r.randint(1, 20))])
+        toks = [r.choice(sd + ["%%", "%Q"] * (r.random() < 0.1)) for _ in range(r.randint(1, 3))]
+        sep = r.choice(SEPS["serial"])
+        fmt = sep.join(toks)
+        cs.add("aserial.format", [str(v), fmt], lambda v=v, fmt=fmt: "ok:" + esc(AS.from_value(v).format(fmt)))
+        try:
+            text = AS.from_value(v).format(fmt)
+        except Exception:  # noqa: BLE001
+            text = str(v)
+        for tx in (text, mutate(r, text, "0123456789,_ ab\n")):
+            strict = r.random() < 0.5
+            cs.add("aserial.parse", [tx, wopt(fmt), "1" if strict else "0"], lambda tx=tx, fmt=fmt, strict=strict: "ok:" + str(AS.parse(tx, fmt, strict=strict).value))
+        t = rand_dt(r).replace(microsecond=0)
+        toks = [r.choice(dd) for _ in range(r.randint(1, 4))]
+        sep = r.choice(SEPS["datetime"])
+        fmt = sep.join(toks)
+        cs.add("adatetime.format", [dt_arg(t), fmt], lambda t=t, fmt=fmt: "ok:" + esc(AD.from_value(t).format(fmt)))
+        try:
+            text = AD.from_value(t).format(fmt)
+        except Exception:  # noqa: BLE001
+            continue
+        t2 = rand_dt(r)
+        pieces = [AD.from_value(t).format(k) for k in toks]
+        j = r.randrange(len(toks))
+        p2 = list(pieces)
+        p2[j] = AD.from_value(t2).format(toks[j])
+        for tx in (text, mutate(r, text, "0123456789 -:\n"), sep.join(p2)):
+            for strict in (False, True):
+                cs.add("adatetime.parse", [tx, wopt(fmt), "1" if strict else "0"],
+                       lambda tx=tx, fmt=fmt, strict=strict: "ok:" + AD.parse(tx, fmt, strict=strict).value.strftime("%Y-%m-%d %H:%M:%S.%f"))
+    for tx, fm in [("0305", "%m%d"), ("20230230", "%Y%m%d"), ("", "%n"), ("12\n", "%n"), ("", "%b"), ("00000101", "%b"), ("0000", "%Y"), ("25", "%H")]:
+        for strict in (False, True):
+            if fm in ("%n", "%b") and tx in ("", "12\n", "00000101"):
+                cs.add("aserial.parse", [tx, wopt(fm), "1" if strict else "0"], lambda tx=tx, fm=fm, strict=strict: "ok:" + str(AS.parse(tx, fm, strict=strict).value))
+            else:
+                cs.add("adatetime.parse", [tx, wopt(fm), "1" if strict else "0"],
+                       lambda tx=tx, fm=fm, strict=strict: "ok:" + AD.parse(tx, fm, strict=strict).value.strftime("%Y-%m-%d %H:%M:%S.%f"))
+    return cs
